@@ -206,6 +206,10 @@ func init() {
 		}
 		return a[2]
 	})
+	v("EngineOnly", func(e *Engine, fr *frame, fn *ssa.Function, a []Value) Value {
+		e.notes = append(e.notes, "engine-only: "+e.concStr(a[0], "reason"))
+		return nil
+	})
 	v("Symbolic", func(e *Engine, fr *frame, fn *ssa.Function, a []Value) Value {
 		return e.T.True
 	})
